@@ -317,6 +317,12 @@ def run(F, chk):
             if lp["k"] != "For" or not is_node(lp.get("cond")) or lp["cond"]["k"] != "Binary" or lp["cond"]["op"] != "<":
                 continue
             bound = peel(lp["cond"]["r"])
+            if is_node(bound) and bound["k"] == "Ref" and bound.get("rk") == "local":
+                # a bound hoisted into a local that is defined once (`const uint16_t n = shape->GetNumVertices();`)
+                defs_ = [v_ for d_ in walk(fn["body"]) if d_["k"] == "Decl" for v_ in d_.get("vars", []) if v_["id"] == bound["id"]]
+                reassigned = any(y["k"] == "Assign" and is_node(y["l"]) and y["l"]["k"] == "Ref" and y["l"].get("id") == bound["id"] for y in walk(fn["body"]))
+                if len(defs_) == 1 and is_node(defs_[0].get("init")) and not reassigned:
+                    bound = peel(defs_[0]["init"])
             obj = counter = None
             if is_node(bound) and bound["k"] == "Call" and bound.get("fid") in getter_of and is_node(bound.get("recv")):
                 obj, counter = bound["recv"], getter_of[bound["fid"]]
